@@ -39,6 +39,9 @@
 //   M <overlap> <pre>                             on-disk: a fresh follower that applied <pre> entries asks B for a streamed
 //                                                 snapshot (real node.handleSnapshotTask -> canStream -> node.stream -> chunk
 //                                                 writer -> the follower's chunk receiver), installs it, gets the rest of the log
+//   V <overlap> <pre>                             on-disk: A saves; raft on A asks for lagging B to be sent a snapshot (real NodeHost.sendMessage decides
+//                                                 file vs stream); B installs the RECEIVED record (its file is shrunk), catches up, and raft on B
+//                                                 then asks for a fresh follower to be sent a snapshot, again through sendMessage
 //   W <overlap> <keep> <pre>                      on-disk: B crashes and restarts as with R, then replays its log one entry at a
 //                                                 time and is asked for a stream (as M) at every replay position up to one past
 //                                                 the index its state machine was opened at
@@ -279,6 +282,11 @@ func (w *world) streamTo(src *replica, ov uint64, pre uint64) {
 		w.emit("M n/a")
 		return
 	}
+	w.streamInto(src, w.newFollower(src, pre), ov, false)
+}
+
+// newFollower: a fresh replica that has applied the first pre entries (fewer than src)
+func (w *world) newFollower(src *replica, pre uint64) *replica {
 	w.nfol++
 	id := 2 + w.nfol
 	old := w.cur
@@ -297,18 +305,74 @@ func (w *world) streamTo(src *replica, ov uint64, pre uint64) {
 		c.deliver(w.log[:pre])
 		c.printed = c.view().Index
 	}
+	return c
+}
+
+// deliverFile: the transport sends the file of snapshot record ss to replica c,
+// whose chunk receiver leaves it finalised (flag file present) in c's directory
+func (w *world) deliverFile(ss pb.Snapshot, c *replica) pb.Snapshot {
+	env := c.node.SnapshotEnv(ss.Index)
+	var ssb pb.Snapshot
+	pb.MustUnmarshal(&ssb, pb.MustMarshal(&ss))
+	ssb.Filepath = env.GetFilepath()
+	if err := env.CreateTempDir(); err != nil {
+		panic(err)
+	}
+	copyFile(w.fs, ss.Filepath, env.GetTempFilepath())
+	if err := env.FinalizeSnapshot(&ssb); err != nil {
+		panic(err)
+	}
+	return ssb
+}
+
+// streamInto: replica c is brought up to date by src. decide = false: a Stream
+// task is handed to src directly. decide = true: raft on src asks for c to be
+// sent a snapshot and the real NodeHost.sendMessage chooses between the recorded
+// file and a stream. c installs what arrives and is handed the rest of the log;
+// it must then equal the uninterrupted replica.
+func (w *world) streamInto(src *replica, c *replica, ov uint64, decide bool) {
+	id := c.id
+	old := w.cur
+	defer func() { w.cur = old }()
 	var received []pb.Message
 	chunks := hk.NewChunk(func(mb pb.MessageBatch) { received = append(received, mb.Requests...) },
 		func(uint64, uint64, uint64) {}, snapRoot, 0, w.fs)
 	w.cur = "stream." + src.name
-	accepted, err := src.node.RequestStream(id, &streamSink{to: id, chunks: chunks})
-	if err != nil {
-		panic(err)
+	stream := true
+	if decide {
+		hasRecord, files, st := src.node.SendInstallSnapshot(id)
+		if !hasRecord {
+			w.emit("M no-record")
+			return
+		}
+		stream = st
+		if len(files) > 0 {
+			ss := files[0].Snapshot
+			shrunk, err := hk.IsShrunk(ss.Filepath, w.fs)
+			if err != nil {
+				panic(err)
+			}
+			w.emit(fmt.Sprintf("M file idx=%d dummy=%v shrunk=%v", ss.Index, ss.Dummy, shrunk))
+			if w.p.kind == "disk" {
+				w.viol = append(w.viol, fmt.Sprintf("ONDISK-FILE-SENT on-disk replica %s answered the snapshot request for replica %d with the file of its recorded snapshot %d (dummy=%v, shrunk image=%v) instead of streaming its state machine", src.name, id, ss.Index, ss.Dummy, shrunk))
+			}
+			received = append(received, pb.Message{Type: pb.InstallSnapshot, Snapshot: w.deliverFile(ss, c)})
+			stream = false
+		} else if !stream {
+			panic("sendMessage neither sent a file nor asked for a stream")
+		}
+		w.feat["send-decision"] = true
 	}
-	if !accepted {
-		w.emit("M refused")
-		w.feat["stream-refused"] = true
-		return
+	if stream {
+		accepted, err := src.node.RequestStream(id, &streamSink{to: id, chunks: chunks})
+		if err != nil {
+			panic(err)
+		}
+		if !accepted {
+			w.emit("M refused")
+			w.feat["stream-refused"] = true
+			return
+		}
 	}
 	if len(received) != 1 || received[0].Type != pb.InstallSnapshot {
 		panic(fmt.Sprintf("follower received %d messages", len(received)))
@@ -324,7 +388,7 @@ func (w *world) streamTo(src *replica, ov uint64, pre uint64) {
 		return
 	}
 	// the follower's step worker: record durable, flag file removed, processSnapshot; then recover
-	w.cur = "C.recover"
+	w.cur = c.name + ".recover"
 	if err := c.ldb.SaveRaftState([]pb.Update{{ShardID: 1, ReplicaID: id, Snapshot: ss}}, 0); err != nil {
 		panic(err)
 	}
@@ -348,6 +412,10 @@ func (w *world) streamTo(src *replica, ov uint64, pre uint64) {
 	c.removeLog()
 	w.emit(fmt.Sprintf("M installed from=%d %s | %s", got, c.obs(), c.aux()))
 	w.newRemovals(c, nrm)
+	if c.name == "B" {
+		w.feat["received-snapshot-on-B"] = true
+	}
+	c.lag = false
 	from := uint64(1)
 	if got+1 > ov {
 		from = got + 1 - ov
@@ -356,10 +424,27 @@ func (w *world) streamTo(src *replica, ov uint64, pre uint64) {
 		from = c.view().Index + 1
 	}
 	w.catchUp(c, from, 0)
-	w.emit("C " + c.obs())
+	w.emit(c.name + " " + c.obs())
 	if a, b := w.A.obs(), c.obs(); a != b {
-		w.viol = append(w.viol, fmt.Sprintf("STREAM-TWINS-DIFFER uninterrupted [%s] follower that installed the stream of index %d [%s]", a, ss.Index, b))
+		w.viol = append(w.viol, fmt.Sprintf("STREAM-TWINS-DIFFER uninterrupted [%s] replica %s that installed the snapshot of index %d [%s]", a, c.name, ss.Index, b))
 	}
+}
+
+// relay: B gets its latest snapshot FROM A (received record, file shrunk after the
+// install), catches up, and is then the one asked to bring a fresh follower up to
+// date; both requests go through the real NodeHost.sendMessage decision
+func (w *world) relay(f []string) {
+	ov, pre := u(f[1]), u(f[2])
+	w.saveA()
+	if w.A.view().Index <= w.B.view().LastIndex {
+		// raft only sends a snapshot to a replica that is behind
+		w.emit("V B-not-behind")
+	} else {
+		w.streamInto(w.A, w.B, ov, true)
+	}
+	w.B.lag = false
+	w.catchUp(w.B, w.B.view().Index+1, 0)
+	w.streamInto(w.B, w.newFollower(w.B, pre), ov, true)
 }
 
 // restartAndStream: restart B, then replay one entry at a time with a stream
@@ -629,7 +714,7 @@ func (w *world) op(o string) {
 	if len(f) == 0 {
 		return
 	}
-	need := map[string]int{"a": 5, "c": 6, "t": 1, "b": 1, "y": 1, "L": 1, "S": 6, "R": 4, "I": 3, "T": 6, "M": 3, "W": 4, "P": 1, "K": 3}
+	need := map[string]int{"a": 5, "c": 6, "t": 1, "b": 1, "y": 1, "L": 1, "S": 6, "R": 4, "I": 3, "T": 6, "M": 3, "W": 4, "P": 1, "K": 3, "V": 3}
 	if n, ok := need[f[0]]; !ok || len(f) != n {
 		w.emit("? " + f[0])
 		return
@@ -676,6 +761,12 @@ func (w *world) op(o string) {
 	case "M":
 		w.flush()
 		w.streamTo(w.B, u(f[1]), u(f[2]))
+	case "V":
+		if w.p.kind != "disk" {
+			w.emit("V n/a")
+			return
+		}
+		w.relay(f)
 	case "W":
 		if w.p.kind != "disk" {
 			w.emit("W n/a")
@@ -764,7 +855,7 @@ func runCase(line string, st *vh.Stats) []string {
 	}
 	keys := []string{}
 	for _, k := range []string{"snapshot", "restart-from-snapshot", "install", "overlap", "compaction", "update-during-save", "lag", "ondisk-init-skip",
-		"save-inside-task", "install-of-older-record", "stream", "stream-refused", "stream-request-in-replay-window"} {
+		"save-inside-task", "install-of-older-record", "send-decision", "received-snapshot-on-B", "stream", "stream-refused", "stream-request-in-replay-window"} {
 		if w.feat[k] {
 			keys = append(keys, k)
 			st.Count("case with " + k)
